@@ -354,9 +354,10 @@ func (i *Int) Double(x *Int) {
 	i.Add(x, x)
 }
 
-// IsNegative returns 1 if i is negative.
+// IsNegative returns 1 if i < 0. The sign-magnitude representation can carry a
+// set sign bit on a zero magnitude (e.g. after (-1) * 0); zero is never negative.
 func (i *Int) IsNegative() ct.Bool {
-	return ct.Bool((*saferith.Int)(i).IsNegative())
+	return ct.Bool((*saferith.Int)(i).IsNegative()) & i.IsNonZero()
 }
 
 // IsZero returns 1 if i == 0.
